@@ -1289,6 +1289,16 @@ class Flow:
             if cell is not None and name in ('operator=', 'store') and argv:
                 s = self.assign(obj, argv[0], s, fr, None, n)
                 return [s.set(rkey, argv[0])]
+            if cell is not None and name == 'test_and_set':
+                cur = self.val(obj, s, fr)
+                s = self.assign(obj, Poly.const(1), s, fr, None, n)
+                a0 = cur.as_atom()
+                if a0 is not None:
+                    self.defbounds.setdefault(a0, (0, 1))
+                return [s.set(rkey, cur)]
+            if cell is not None and name == 'clear':
+                s = self.assign(obj, Poly.const(0), s, fr, None, n)
+                return [s.set(rkey, Poly.atom(('void',)))]
             if cell is not None and name == 'exchange' and argv:
                 cur = self.val(obj, s, fr)
                 s = self.assign(obj, argv[0], s, fr, None, n)
